@@ -400,6 +400,11 @@ def check(ctx, rep):
                 decoder_rule(ctx, rep, half, raw, name, b, kind, adt)
     for feat, comb, enc, dec in headers.active(ctx):
         facade_rule(ctx, rep, comb, enc, dec)
+    if "wrath-header" in F:
+        # the Wrath server header's wire layout (4 or 5 bytes) is decided by C10's encoder /
+        # decoder rules; "same bytes as the raw operation on the wire layout" needs them
+        from rules import c10
+        c10.check(ctx, util.Refile(rep, "wrath-server-layout", {"encoder", "decoder", "stream-step"}))
 
 
 def wrath_reader_tail(ctx, rep, half, b):
